@@ -381,10 +381,15 @@ func c18Reduced(n int64) []c18Op {
 			ops = append(ops, c18Op{Op: "write", Len: l, Ans: a})
 		}
 	}
+	// more fault shapes on the longer write: nothing accepted with / without an error, two bytes and an error
+	for _, a := range []c18Ans{{K: 0, Err: true}, {K: 0, Err: false}, {K: 2, Err: true}} {
+		ops = append(ops, c18Op{Op: "write", Len: 3, Ans: a})
+	}
 	for _, off := range []int64{0, n - 1} {
 		for _, a := range ans {
 			ops = append(ops, c18Op{Op: "writeat", Len: 2, Off: off, Ans: a})
 		}
+		ops = append(ops, c18Op{Op: "writeat", Len: 2, Off: off, Ans: c18Ans{K: 0, Err: true}})
 	}
 	for _, s := range [][2]int64{{1, 1}, {-1, 1}, {0, 0}, {0, 2}, {-1, 2}, {2, 0}} {
 		ops = append(ops, c18Op{Op: "seek", Off: s[0], Whence: int(s[1]), Ans: c18Ans{Full: true}})
